@@ -141,4 +141,11 @@ var props = map[string]*propCfg{
 		Quick:       []legCfg{mc("vars", "MC_C20", "C20_quick.cfg", 10*time.Minute), {Kind: "trace", Name: "vars", Module: "VarsTrace", TraceN: 150, TraceFiles: 4, Timeout: 10 * time.Minute, CallEv: "start", APIKinds: []string{"api", "vars", "set", "get"}}},
 		Thorough:    []legCfg{mc("vars", "MC_C20", "C20_thorough.cfg", 40*time.Minute), {Kind: "trace", Name: "vars", Module: "VarsTrace", TraceN: 800, TraceFiles: 12, Timeout: 20 * time.Minute, CallEv: "start", APIKinds: []string{"api", "vars", "set", "get"}}},
 	},
+	"C09": {
+		ID: "C09", Level: "model_checking", Exhaustive: true,
+		Rule:        "TLC enumerates documents {a: V, 'c.d': W} for 12 values V (scalars, NULL, objects, empty / flat / object / 2-D ragged / 3-D ragged / mixed arrays) x selectors `a` followed by up to Depth-1 (plus a reduced set of Depth) steps from 39 steps (keys incl. missing, 23 index lists with each / indices in and out of range / ranges with begin, end, inverted and overlong bounds, 7 keep=> lists, 5 pipes incl. conversions and an unknown type), with mix=> / distinct=> / an unknown function, with :: continuation, and through a quoted key and a missing root key. Every case: ExecReader on a fresh copy - value or error as the specification says, no panic, document deep-equal afterwards; object-array results also as the FROM path of a query; plus two byte-level mutations of the text (no panic, document untouched only). Non-trivial: a non-NULL value; distinct = distinct (document, selector).",
+		Assumptions: baseAssumptions,
+		Quick:       []legCfg{mc("selectors", "MC_C09", "C09_quick.cfg", 10*time.Minute)},
+		Thorough:    []legCfg{mc("selectors", "MC_C09", "C09_thorough.cfg", 30*time.Minute)},
+	},
 }
